@@ -32,6 +32,7 @@ type storeParams struct {
 	HnswM               int
 	Nlist               int
 	ivfTrain            [][]float32 // training set (fixed per case) for the ivf template
+	ivfUntrained        bool        // hand the store an UNTRAINED ivf template (it is trained later through store.Train)
 }
 
 func (p storeParams) String() string {
@@ -74,8 +75,10 @@ func (p storeParams) freshConfig(dir string) (*comet.StorageConfig, error) {
 			}
 			nodes[i] = *comet.NewVectorNodeWithID(uint32(i+1), cloneF32(v))
 		}
-		if err := x.Train(nodes); err != nil {
-			return nil, err
+		if !p.ivfUntrained {
+			if err := x.Train(nodes); err != nil {
+				return nil, err
+			}
 		}
 		cfg.VectorIndexTemplate = x
 	}
